@@ -124,8 +124,13 @@ def check_lookahead(prog, rep, rule):
     import render
     problems = []
     n_names = 0
-    for w in (["q"], ["3", "a"], ["V", "_"], ["E", "X", "a"], ["E", "U", "_"], ["A", "X", "a"], ["A", "G", "7"], ["A", "W", "b"], ["E", "F", "Z"]):
-        for k, t, r in m.decide(w, fl):
+    for w in (["q"], ["3", "a"], ["V", "_"], ["E", "X", "a"], ["E", "U", "_"], ["A", "X", "a"], ["A", "G", "7"], ["A", "W", "b"], ["E", "F", "Z"],
+              ["0", "a"], ["1", "_"], ["1", "0"], ["7", "x"], ["_", "1"]):
+        outs = m.decide(w, fl)
+        if not any(k == "token" and T.token_kind(t) == ("Atom", "Prop") for k, t, r in outs):
+            # (names may start with any name character, digits included: `10`, `0_gene`, `1a`)
+            problems.append(f"input `{''.join(w)}..` is not read as one proposition name")
+        for k, t, r in outs:
             if k != "token" or T.token_kind(t) != ("Atom", "Prop"):
                 continue
             name = t[2][0][2][0] if t[0] == "ctor" and t[2] and t[2][0][0] == "ctor" and t[2][0][2] else None
